@@ -7,7 +7,7 @@ From SAV.orm Require Import Query QueryCrit QueryShapes QueryAsm.
 (* ~P.children.contains(c) for a child c without parent: compiled to  NOT (p.id = NULL)  -> no row;
    the relational meaning (c is in no collection) selects every parent *)
 Definition wit_db1 : db := {| ps := [ {| p_id := 4; p_x := Some 3%Z |} ];
-                              cs := [ {| c_id := 7; c_pid := None; c_y := Some 0%Z; c_kind := 0 |} ]; ns := [] |}.
+                              cs := [ {| c_id := 7; c_pid := None; c_y := Some 0%Z; c_kind := 0 |} ]; ns := []; pn := [] |}.
 Definition wit_q1 : oq := QP (PNot (PContains 7)).
 
 Lemma core_meaning_refuted : exists d q,
@@ -19,7 +19,7 @@ Definition wit_db2 : db :=
   {| ps := [ {| p_id := 7; p_x := Some 0%Z |} ];
      cs := [ {| c_id := 7; c_pid := Some 7%Z; c_y := Some 0%Z; c_kind := 1 |};
              {| c_id := 9; c_pid := Some 7%Z; c_y := Some 2%Z; c_kind := 1 |};
-             {| c_id := 2; c_pid := Some 7%Z; c_y := Some 2%Z; c_kind := 0 |} ]; ns := [] |}.
+             {| c_id := 2; c_pid := Some 7%Z; c_y := Some 2%Z; c_kind := 0 |} ]; ns := []; pn := [] |}.
 Definition wit_q2 : oq := QJoinPC false TgAlias STrue STrue EntCol.
 
 Lemma count_agree_legacy_refuted : exists d q,
@@ -45,5 +45,5 @@ Qed.
 
 (* legacy Query.union(..).offset(1).exists() (formerly a cartesian product union x p; repaired in 2942091):
    the union has one row, the query returns none, count() is 0 and exists() is false *)
-Definition wit_db3 : db := {| ps := [ {| p_id := 1; p_x := Some 1%Z |}; {| p_id := 2; p_x := Some 5%Z |} ]; cs := []; ns := [] |}.
+Definition wit_db3 : db := {| ps := [ {| p_id := 1; p_x := Some 1%Z |}; {| p_id := 2; p_x := Some 5%Z |} ]; cs := []; ns := []; pn := [] |}.
 Definition wit_q3 : oq := QUnion (PS (SCmp OEq 1)) (PS (SCmp OEq 1)).
